@@ -823,23 +823,29 @@ class Module(HasAccessibles):
         called at the beginning of the poller thread and for writing persistent values
         """
         for pname in list(self.writeDict):
-            value = self.writeDict.pop(pname, Done)
+            value = self.writeDict.get(pname, Done)
             # in the mean time, a poller or handler might already have done it
             if value is not Done:
-                wfunc = getattr(self, 'write_' + pname, None)
-                if wfunc is None:
-                    setattr(self, pname, value)
-                else:
-                    try:
-                        self.log.debug('initialize parameter %s', pname)
-                        wfunc(value)
-                    except SECoPError as e:
-                        if e.silent:
-                            self.log.debug('%s: %s', pname, str(e))
-                        else:
-                            self.log.error('%s: %s', pname, str(e))
-                    except Exception:
-                        self.log.error(formatException())
+                # the entry stays until the value is written: as long as writeDict is not
+                # empty, PersistentMixin does not save (values read back from the hardware
+                # while writing might still be factory defaults)
+                try:
+                    wfunc = getattr(self, 'write_' + pname, None)
+                    if wfunc is None:
+                        setattr(self, pname, value)
+                    else:
+                        try:
+                            self.log.debug('initialize parameter %s', pname)
+                            wfunc(value)
+                        except SECoPError as e:
+                            if e.silent:
+                                self.log.debug('%s: %s', pname, str(e))
+                            else:
+                                self.log.error('%s: %s', pname, str(e))
+                        except Exception:
+                            self.log.error(formatException())
+                finally:
+                    self.writeDict.pop(pname, None)
 
     def setRemoteLogging(self, conn, level, send_log):
         if self.remoteLogHandler is None:
